@@ -64,6 +64,27 @@ func c10Bases(thorough bool) []c10Base {
 			return &ir.Program{Root: p, Injectors: []*ir.Injector{inj}}
 		})},
 	)
+	bases = append(bases,
+		c10Base{"struct-with-same-typed-fields-and-case-pair", custom(func(b *ir.Builder) *ir.Program {
+			p := b.Root
+			str := b.Leaf(p, "Str")
+			lg := b.Leaf(p, "Log")
+			vb := b.Leaf(p, "Verbosity")
+			// two fields of one type of which only one is selected; a field and its lower-case twin
+			srv := b.Agg(p, "Server", &ir.Field{Name: "Addr", T: str}, &ir.Field{Name: "Name", T: str}, &ir.Field{Name: "Log", T: ir.Ptr(lg)})
+			opt := b.Agg(p, "Options", &ir.Field{Name: "verbose", T: b.Leaf(p, "Flag")}, &ir.Field{Name: "Verbose", T: vb})
+			r := b.Leaf(p, "R")
+			inj := &ir.Injector{Name: "Init", Out: r, Items: []*ir.Item{
+				ir.StructItem(srv, "Addr", "Log"),
+				ir.FuncItem(&ir.Func{Pkg: p, Name: "PStr", Out: str}),
+				ir.FuncItem(&ir.Func{Pkg: p, Name: "PLog", Out: ir.Ptr(lg)}),
+				ir.FuncItem(&ir.Func{Pkg: p, Name: "POpt", Out: opt}),
+				ir.FieldsOfItem(opt, false, "Verbose"),
+				ir.FuncItem(&ir.Func{Pkg: p, Name: "PR", Params: []*ir.Type{ir.Ptr(srv), vb}, Out: r}),
+			}}
+			return &ir.Program{Root: p, Injectors: []*ir.Injector{inj}}
+		})},
+	)
 	if thorough {
 		bases = append(bases,
 			c10Base{"lib:six-mixed", mk(6, [][]int{{}, {}, {0}, {1, 2}, {3}, {4, 0}}, []int{NValue, NFunc, NBound, NStruct, NField, NFunc}, []int{TLeaf, TPtr, 0, 0, TInt, TLeaf}, true)})
